@@ -20,7 +20,7 @@ imports = ac.imports
 AXES = [
     ('raw', [True, False]),
     ('features', ['sparse', 'absent', 'noind', 'sparse_rows']),
-    ('curation', ['none', 'merge_split', 'reassign']),
+    ('curation', ['none', 'merge_split', 'reassign', 'swap']),
     ('probes', ['absent', 'zeros']),
     ('kslabel', [False, True]),
     ('temp_wh', [False, True]),
@@ -51,6 +51,10 @@ def make_spec(cfg, fill):
             if x == last:
                 sc[i] = mx + 2 if seen < 1 else mx + 3
                 seen += 1
+    elif cfg['curation'] == 'swap':
+        # one spike moved between two existing ids: the set of ids is the set of used templates
+        sc = list(st)
+        sc[[i for i, x in enumerate(st) if x == 0][-1]] = 1
     else:   # one spike moved to a new id, no id emptied
         sc = list(st)
         sc[[i for i, x in enumerate(st) if x == 0][-1]] = mx + 1
